@@ -61,6 +61,11 @@ pub(crate) fn generate_pipeline(
         ARGUMENT_BUFFER_3_NAME,
     ];
 
+    // Each bind group is turned into one of a fixed set of argument buffers
+    if binding_layout.0.len() > ARGUMENT_BUFFER_NAMES.len() {
+        return Err(GenerateError::UnsupportedBindGroupIndex);
+    }
+
     let mut defs = Vec::new();
 
     let mut binding_params = Vec::new();
